@@ -625,7 +625,7 @@ SPECS['C18'] = dict(
         'of 3-7 nested directories with 20-200 byte names (working directory up to ~1400 bytes) descended with one visitor per level, each of which must restore its predecessor. odd cases: 200 path strings '
         'each: join/getPathName/getParentDirectory identities for d from segments and "/" separators and separator-free n, join with an absolute path, arbitrary strings for memory safety only. '
         'distinct = distinct trees + distinct string triples',
-        samples, observed=pick(agg, 'trees', 'nodes', 'directories', 'files', 'emptyDirectories', 'nodeQueries', 'relativeQueries', 'trailingSeparatorQueries', 'missingPathProbes', 'oddNames', 'randomSegments', 'descriptorChecks', 'bytesInFiles',
+        samples, observed=pick(agg, 'trees', 'nodes', 'directories', 'files', 'emptyDirectories', 'nodeQueries', 'relativeQueries', 'trailingSeparatorQueries', 'missingPathProbes', 'oddNames', 'randomSegments', 'descriptorChecks', 'visitorsOfTheCurrentDirectory', 'directoriesWithThousandsOfEntries', 'bytesInFiles',
                                'pathStrings', 'identitiesChecked', 'absoluteJoins', 'arbitraryStrings', 'visitors', 'nestedVisitors', 'deepChains', 'maxCwdBytes')),
     assumptions=['identities are judged for directories written with "/" separators (Path::Separator); strings with backslashes, the empty string and lone separators are only required not to trip the sanitizers',
                  'runs as a user who can read every generated entry (exists() is implemented with fopen)'],
